@@ -144,9 +144,10 @@ def decide(prop, cfg, tier, seed, b, rundir, run_driver, read_indexed, sh, ENV):
         res["lines"].append("VIOLATION property=%s replay=%s" % (prop, path))
         res["violations"] += 1
 
-    unexplained = [k for k in mism if oracle.get(k, "ok") == "ok" or match_known(known, cases[k], oracle[k]) is None and False]
-    # mismatches on cases whose oracle fired are already reported (or known); the others are a broken correspondence
-    unexplained = [k for k in mism if oracle.get(k, "ok") == "ok"]
+    # mismatches on cases whose oracle reported an UNLISTED violation are already reported above; all others are a broken
+    # correspondence -- including cases on which the oracle only saw a listed finding: the model reproduces the listed
+    # behaviour, so a disagreement there is something new that a known finding must not hide
+    unexplained = [k for k in mism if oracle.get(k, "ok") == "ok" or match_known(known, cases[k], oracle[k]) is not None]
     if unexplained:
         hdr = ["correspondence broken for %s: model and implementation disagree on %d of %d cases" % (prop, len(unexplained), len(cases)),
                "no input was found on which the implementation itself breaks the property" if not unknown else
